@@ -91,6 +91,11 @@ def length_checked(f, call, length_expr, fm=None):
     if name is None:
         return False, 'the bytes are used directly (`%s`) without being bound and length-checked' % U(st)[:70]
     want = {('==', 'len(%s)' % name, length_expr), ('==', length_expr, 'len(%s)' % name)}
+    # the length held in a local: n = len(N)
+    for a in ast.walk(f.node):
+        if isinstance(a, ast.Assign) and len(a.targets) == 1 and isinstance(a.targets[0], ast.Name) and \
+                U(a.value) == 'len(%s)' % name:
+            want |= {('==', a.targets[0].id, length_expr), ('==', length_expr, a.targets[0].id)}
     uses = []
     seen_def = False
     for n in ast.walk(f.node):
